@@ -156,9 +156,9 @@ func upperUnit(c uint16) (u uint16, single bool, known bool) {
 	case 0x039C, 0x0178, 0x212A, 0x212B, 0x1E9E, 0x0130: // already upper case
 		return c, true, true
 	}
-	// code units without case: separators, BOM, surrogates, CJK
+	// code units without case: separators, currency symbols, BOM, surrogates, CJK
 	switch {
-	case c >= 0x2000 && c <= 0x206F, c == 0xFEFF, c == 0x1680, c == 0x3000,
+	case c >= 0x2000 && c <= 0x206F, c >= 0x20A0 && c <= 0x20CF, c == 0xFEFF, c == 0x1680, c == 0x3000,
 		c >= 0xD800 && c <= 0xDFFF, c >= 0x4E00 && c <= 0x9FFF, c >= 0x3040 && c <= 0x30FF:
 		return c, true, true
 	}
